@@ -631,7 +631,7 @@ def main():
     try:
         for name, c in vlib.load_corpus(PROP):
             run_case(ck, c, use_model)
-        explore(ck, ck.budget(250, 800), use_model)
+        explore(ck, ck.budget(160, 800), use_model)
         if ck.broken() and not ck.violations:
             explore(ck, 1500, use_model=False, tier="quick")
         if ck.violations:
